@@ -617,6 +617,29 @@ Qed.
 Lemma fpost_pinv (m : SM unit) s : pwp m fpost s -> pwp m (fun _ s' => PInv s') s.
 Proof using. intros H. eapply swp_mono; [exact H|]. intros a s' [M' Q']. split; [left; exact M'|exact Q']. Qed.
 
+Ltac charfact Eb :=
+  repeat (apply andb_true_iff in Eb; destruct Eb as [Eb _]);
+  first [ eapply eqb_breakz; [exact Eb|reflexivity] | apply N.eqb_eq; exact Eb ].
+(* one branch of the dispatch: [Eb] is the condition that selected it *)
+Ltac disp Eb :=
+  lazymatch goal with
+  | |- swp _ (fail _ _) _ _ => apply swp_fail; assumption
+  | |- swp _ (fetch_flow_collection_start _ _ _) _ _ =>
+      apply fpost_pinv; eapply pw_fetch_flow_collection_start; [eassumption|assumption|charfact Eb]
+  | |- swp _ (fetch_flow_collection_end _ _ _) _ _ =>
+      apply fpost_pinv; eapply pw_fetch_flow_collection_end; [eassumption|assumption|charfact Eb]
+  | |- swp _ (fetch_flow_entry _ _) _ _ => apply fpost_pinv; eapply pw_fetch_flow_entry; [eassumption|assumption|charfact Eb]
+  | |- swp _ (fetch_block_entry _ _) _ _ => apply fpost_pinv; eapply pw_fetch_block_entry; [eassumption|assumption|charfact Eb]
+  | |- swp _ (fetch_key _ _) _ _ => apply fpost_pinv; eapply pw_fetch_key; [eassumption|assumption|charfact Eb]
+  | |- swp _ (fetch_value _ _) _ _ => apply fpost_pinv; eapply pw_fetch_value; [eassumption|assumption|charfact Eb]
+  | |- swp _ (fetch_flow_value _ _) _ _ => apply fpost_pinv; eapply pw_fetch_flow_value; [eassumption|assumption|charfact Eb]
+  | |- swp _ (fetch_anchor _ _ _) _ _ => apply fpost_pinv; eapply pw_fetch_anchor; [eassumption|assumption|charfact Eb]
+  | |- swp _ (fetch_tag _ _) _ _ => apply fpost_pinv; eapply pw_fetch_tag; [eassumption|assumption|charfact Eb]
+  | |- swp _ (fetch_block_scalar _ _ _) _ _ => apply fpost_pinv; eapply pw_fetch_block_scalar; [eassumption|assumption|charfact Eb]
+  | |- swp _ (fetch_flow_scalar _ _ _) _ _ => apply fpost_pinv; eapply pw_fetch_flow_scalar; [eassumption|assumption|charfact Eb]
+  | |- swp _ (fetch_plain_scalar _ _) _ _ => apply fpost_pinv; eapply pw_fetch_plain_scalar; [eassumption|assumption]
+  end.
+
 Lemma pw_fetch_next_token F s : PInv s -> pwp (fetch_next_token str_ops F) (fun _ s' => PInv s') s.
 Proof using no_nul H_dir H_tag H_anchor H_flow H_plain H_block.
   intros [HM HQI]. unfold fetch_next_token.
@@ -667,31 +690,79 @@ Proof using no_nul H_dir H_tag H_anchor H_flow H_plain H_block.
   wpeek. wpeekn. cbv zeta.
   (* the dispatch on the next character: every branch knows which character it is about to consume *)
   repeat match goal with
-  | |- swp _ (if (?c =? ?k)%N then _ else _) _ _ =>
-      let Ec := fresh "Ec" in destruct (c =? k)%N eqn:Ec;
-      [ apply fpost_pinv;
-        first [ eapply pw_fetch_flow_collection_start; [eassumption|assumption|eapply eqb_breakz; [exact Ec|reflexivity]]
-              | eapply pw_fetch_flow_collection_end; [eassumption|assumption|eapply eqb_breakz; [exact Ec|reflexivity]]
-              | eapply pw_fetch_flow_entry; [eassumption|assumption|eapply eqb_breakz; [exact Ec|reflexivity]]
-              | eapply pw_fetch_anchor; [eassumption|assumption|eapply eqb_breakz; [exact Ec|reflexivity]]
-              | eapply pw_fetch_tag; [eassumption|assumption|apply N.eqb_eq; exact Ec]
-              | eapply pw_fetch_flow_scalar; [eassumption|assumption|eapply eqb_breakz; [exact Ec|reflexivity]] ]
-      | ]
-  | |- swp _ (if (?c =? ?k)%N && ?r then _ else _) _ _ =>
-      let Ec := fresh "Ec" in destruct (c =? k)%N eqn:Ec; cbn [andb];
-      [ match goal with |- swp _ (if ?b then _ else _) _ _ => destruct b end;
-        [ apply fpost_pinv;
-          first [ eapply pw_fetch_block_entry; [eassumption|assumption|eapply eqb_breakz; [exact Ec|reflexivity]]
-                | eapply pw_fetch_key; [eassumption|assumption|eapply eqb_breakz; [exact Ec|reflexivity]]
-                | eapply pw_fetch_value; [eassumption|assumption|eapply eqb_breakz; [exact Ec|reflexivity]]
-                | eapply pw_fetch_flow_value; [eassumption|assumption|eapply eqb_breakz; [exact Ec|reflexivity]]
-                | eapply pw_fetch_block_scalar; [eassumption|assumption|eapply eqb_breakz; [exact Ec|reflexivity]]
-                | eapply pw_fetch_plain_scalar; [eassumption|assumption] ]
-        | ]
-      | ]
+  | |- swp _ (if ?b then _ else _) _ _ => let Eb := fresh "Eb" in destruct b eqn:Eb; [solve [disp Eb]|]
   end.
-  all: repeat dif; first [ apply swp_fail; exact TM | apply fpost_pinv; eapply pw_fetch_plain_scalar; [eassumption|assumption] ].
+  disp TM.
 Qed.
 
-(*CONT*)
+(* ---------------- fetch_more_tokens, next_token, scan_all ---------------- *)
+Lemma pw_fetch_more_tokens F : forall fuel s,
+  PInv s -> pwp (fetch_more_tokens str_ops F fuel) (fun _ s' => PInv s') s.
+Proof using no_nul H_dir H_tag H_anchor H_flow H_plain H_block.
+  induction fuel as [|fuel IH]; intros s [HM HQI]; cbn [fetch_more_tokens]; [apply swp_oof|].
+  wget.
+  wb. apply swp_mono with (Q := fun (_ : bool) s' => PInv s').
+  - destruct (sc_tokens s) as [|t r]; [apply swp_ret; split; assumption|].
+    wb. eapply run_ps'; [solve [ps_auto]|exact HM|exact HQI|]. intros s1 M1 SP1 QI1. cbv beta.
+    wget. apply swp_ret. split; assumption.
+  - intros need s1 [M1 QI1]. cbv beta. destruct need.
+    + wb. eapply swp_mono; [apply pw_fetch_next_token; split; assumption|]. intros u2 s2 P2. cbv beta.
+      apply IH. exact P2.
+    + apply swp_modify. split; [apply (mark'_ext s1); [exact M1|reflexivity|reflexivity]|].
+      apply (qinv_eq s1); [reflexivity|reflexivity|exact QI1].
+Qed.
+
+Lemma pw_next_token F s :
+  PInv s -> pwp (next_token str_ops F) (fun o s' => PInv s' /\ (forall t, o = Some t -> ttok t)) s.
+Proof using no_nul H_dir H_tag H_anchor H_flow H_plain H_block.
+  intros HP. unfold next_token. wget.
+  destruct (sc_stream_end s); [apply swp_ret; split; [exact HP|discriminate]|].
+  wb. apply swp_mono with (Q := fun _ s' => PInv s').
+  { destruct (sc_token_available s); [apply swp_ret; exact HP|apply pw_fetch_more_tokens; exact HP]. }
+  intros _ s1 [M1 QI1]. cbv beta. wget.
+  destruct (sc_tokens s1) as [|t r] eqn:ETK; [apply swp_fail, mark'_true, M1|].
+  destruct QI1 as [T1 K1]. rewrite ETK in T1. inversion T1 as [|t' r' Ht Hr]; subst t' r'.
+  apply swp_bind, swp_put.
+  match goal with |- swp _ _ _ ?x => set (s2 := x) end.
+  assert (P2 : PInv s2).
+  { split; [apply (mark'_ext s1); [exact M1|reflexivity|reflexivity]|]. split; subst s2; sproj; assumption. }
+  clearbody s2. cbv beta.
+  wb. apply swp_mono with (Q := fun _ s' => PInv s').
+  { destruct (snd t); try (apply swp_ret; exact P2).
+    apply swp_modify. destruct P2 as [M2 Q2]. split; [apply (mark'_ext s2); [exact M2|reflexivity|reflexivity]|].
+    apply (qinv_eq s2); [reflexivity|reflexivity|exact Q2]. }
+  intros _ s3 P3. cbv beta. apply swp_ret. split; [exact P3|]. intros t0 Et. injection Et as <-. exact Ht.
+Qed.
+
+Lemma scan_all_pos F : forall fuel s acc,
+  PInv s -> Forall ttok acc ->
+  let '(toks, se) := scan_all str_ops F fuel s acc in
+  Forall ttok toks /\ (forall site m, se = SError site m -> tmark m).
+Proof using no_nul H_dir H_tag H_anchor H_flow H_plain H_block.
+  induction fuel as [|fuel IH]; intros s acc HP HA; cbn [scan_all].
+  - split; [apply Forall_rev; exact HA|discriminate].
+  - pose proof (pw_next_token F s HP) as W. unfold swp in W.
+    destruct (next_token str_ops F s) as [[[t|] s']| | |].
+    + destruct W as [P' Ht]. apply IH; [exact P'|]. constructor; [apply Ht; reflexivity|exact HA].
+    + split; [apply Forall_rev; exact HA|discriminate].
+    + split; [apply Forall_rev; exact HA|]. intros site0 m0 E. injection E as _ <-. exact W.
+    + split; [apply Forall_rev; exact HA|discriminate].
+    + split; [apply Forall_rev; exact HA|discriminate].
+Qed.
+
+Lemma pinv_init : PInv (init_sc {| si_chars := orig; si_look := 0 |}).
+Proof using.
+  split; [left; exists []|split; constructor].
+  unfold ScanPos.MarkAt, rem, init_sc; cbn [sc_in sc_mark si_chars m_index m_line m_col app length]. rewrite pos_go_0.
+  repeat split.
+Qed.
+
+Theorem scan_all_true_positions : forall F fuel,
+  let '(toks, se) := scan_all str_ops F fuel (init_sc {| si_chars := orig; si_look := 0 |}) [] in
+  Forall (true_tok orig) toks /\ (forall site m, se = SError site m -> true_mark orig m).
+Proof using no_nul H_dir H_tag H_anchor H_flow H_plain H_block.
+  intros F fuel. apply scan_all_pos; [apply pinv_init|constructor].
+Qed.
+
 End PosFetch.
+Print Assumptions scan_all_true_positions.
